@@ -58,7 +58,7 @@ def assigned_names(stmts):
             elif isinstance(n, ast.Expr) and isinstance(n.value, ast.Yield):
                 out.append("«yield»")
             elif isinstance(n, ast.Expr) and isinstance(n.value, ast.Call) and isinstance(n.value.func, ast.Attribute) \
-                    and isinstance(n.value.func.value, (ast.Name, ast.Attribute)):
+                    and isinstance(n.value.func.value, (ast.Name, ast.Attribute, ast.Subscript)):
                 # a method call as a statement may change its receiver (append, pop, a command of an effect object):
                 # the receiver is carried through loops and joins (an over-approximation is harmless)
                 tgt(n.value.func.value)
@@ -175,6 +175,38 @@ class StmtMixin:
                     env2[key] = (nm2, TList(j))
                     return "let {} := {} ++ [{}]\n{}".format(nm2, coerce(nm, t, TList(j)), coerce(c, tc, j), nxt(env2))
                 return self.expr(v.args[0], env, fin)
+            if f.attr == "append" and isinstance(f.value, ast.Subscript) and not isinstance(f.value.slice, ast.Slice) \
+                    and isinstance(f.value.value, ast.Name) and f.value.value.id in env and len(v.args) == 1:
+                # rows[i].append(x): the row is looked up (IndexError, negative indices), then the argument is
+                # evaluated, then the entry is replaced — sound because the rows are distinct objects
+                rkey = f.value.value.id
+                nm, t = env[rkey]
+                t = resolve(t)
+                if rkey not in self.fresh_rows or not isinstance(t, TList) or not isinstance(resolve(t.elem), TList):
+                    raise Unsupported("append to an entry of a list whose rows are not known to be distinct objects")
+                self.check_mutable(rkey)
+                trow = resolve(t.elem)
+
+                def fin_i(ic, it):
+                    def with_i(iv):
+                        def with_row(row, _t):
+                            def fin_v(c, tc):
+                                unify(trow.elem, tc) if isinstance(resolve(trow.elem), TVar) else None
+                                j = join(trow.elem, tc)
+                                if j is None or j != resolve(trow.elem):
+                                    raise Unsupported("append of {} to a row of {}".format(resolve(tc).lean(), t.lean()))
+                                nm2 = self.lname(rkey)
+
+                                def after(l, _tl):
+                                    env2 = dict(env)
+                                    env2[rkey] = (l, t)
+                                    return nxt(env2)
+                                return self.bind("Py.listSet {} {} ({} ++ [{}])".format(nm, iv, row, coerce(c, tc, j)),
+                                                 t, after, "l")
+                            return self.expr(v.args[0], env, fin_v)
+                        return self.bind("Py.index {} {}".format(nm, iv), trow, with_row, "row")
+                    return self.as_int(ic, it, with_i)
+                return self.expr(f.value.slice, env, fin_i)
             if f.attr == "pop" and key in env and not v.args:
                 return self.pop_stmt(key, None, env, nxt)
             if key in env and isinstance(resolve(env[key][1]), TBuilder) and resolve(env[key][1]).cmd == f.attr \
@@ -269,6 +301,16 @@ class StmtMixin:
                 self.observers.append((ob, TFun(ptys, rty, raises), ("call", name, None)))
             out.append((ob, None, None))
         return out
+
+    def mark_aliases(self, target, ty):
+        """names bound to a mutable value that lives inside another object: mutating them is outside the subset"""
+        ty = resolve(ty)
+        if isinstance(target, ast.Name):
+            if isinstance(ty, (TList, TDict)):
+                self.aliased.add(target.id)
+        elif isinstance(target, (ast.Tuple, ast.List)) and isinstance(ty, TTuple) and len(ty.elems) == len(target.elts):
+            for tg, te in zip(target.elts, ty.elems):
+                self.mark_aliases(tg, te)
 
     def check_mutable(self, key):
         if key in self.aliased:
@@ -415,6 +457,14 @@ class StmtMixin:
         if isinstance(vnode, (ast.Name, ast.Attribute)) and isinstance(resolve(t), (TList, TDict)):
             self.aliased.add(src(vnode))
             self.aliased.add(src(target))
+        if isinstance(vnode, ast.Subscript) and not isinstance(vnode.slice, ast.Slice):
+            self.mark_aliases(target, t)      # `row = rows[i]`: an alias of the entry
+        if isinstance(target, ast.Name):
+            # rows created by `[[…] for … in …]` are distinct objects: `rows[i].append(x)` changes one entry
+            if isinstance(vnode, ast.ListComp) and isinstance(vnode.elt, (ast.List, ast.ListComp)):
+                self.fresh_rows.add(target.id)
+            else:
+                self.fresh_rows.discard(target.id)
         if isinstance(target, (ast.Tuple, ast.List)) and not (c.replace("_", "a").replace("'", "a").isalnum()):
             tmp = self.fresh("p")
             env2, lets = self.assign_target(target, tmp, t, env)
@@ -594,6 +644,7 @@ class StmtMixin:
             if len(keep) > 1:
                 lets.append("let {} := {}".format(nm, proj(st, i, len(keep))))
         env_in, tl = self.bind_target(s.target, x, el, env_in)
+        self.mark_aliases(s.target, el)
         lets += tl
         falls = []
 
